@@ -76,7 +76,7 @@ static int gen(const char* file)
                     }
                 }
                 static std::set<std::tuple<int, int, int>> setupSeen; // the level count depends on (nr, ntheta, cap) only
-                if (fail.empty() && v == 0 && setupSeen.insert({G.nr(), G.ntheta(), maxlev}).second) { // what setup() reports
+                if (fail.empty() && v == 0 && (long)G.nr() * G.ntheta() <= 40000 && setupSeen.insert({G.nr(), G.ntheta(), maxlev}).second) { // what setup() reports (a full setup: not on the largest grids)
                     GMGPolar S;
                     std::vector<std::string> args = {"drv", "--verbose", "0", "--alpha_jump", std::to_string(rr), "--R0", "0.1", "--Rmax", "1.3"};
                     std::vector<char*> av;
